@@ -6,6 +6,7 @@ use xplore::{explore, sweep, Config, Verdict};
 
 mod c19;
 mod notified;
+mod realsrv;
 mod statesvc;
 
 use c19::{RtKind, Sched, Spec};
@@ -122,7 +123,7 @@ fn run_c19(tier: &str) -> i32 {
 /// dropped at scheduled moments and new ones started; what is received must still be exactly what
 /// was sent.  Prints one JSON line.
 fn c07_child(tier: &str) -> i32 {
-    let cfg_base = Config { max_wall: std::time::Duration::from_secs(tier_pick(tier, 60, 900)), ..Default::default() };
+    let cfg_base = Config { max_wall: std::time::Duration::from_secs(tier_pick(tier, 60, 900)), violation_beats_nondeterminism: true, ..Default::default() };
     let mut phases = Vec::new();
     for rt in [RtKind::Tokio, RtKind::Smol] {
         let th = tier == "thorough";
@@ -161,6 +162,35 @@ fn c10_child(tier: &str) -> i32 {
             eprintln!("[C10 child] phase {pname}: {} executions, {} violation classes, {:.1}s", st.evals, st.violations.len(), st.wall);
             phases.push(st);
         }
+    }
+    println!("{}", xplore::report::child_json(&phases, "C19"));
+    0
+}
+
+/// `Server::run` over the shipped transports and listeners with plain std clients (children of
+/// the C08 and C18 checks).  Prints one JSON line.
+fn realsrv_child(tier: &str, fairness: bool) -> i32 {
+    use realsrv::{Ending, RealSrv, K};
+    let cfg = Config { max_wall: std::time::Duration::from_secs(tier_pick(tier, 60, 900)), violation_beats_nondeterminism: true, ..Default::default() };
+    let th = tier == "thorough";
+    let mut phases = Vec::new();
+    for smol in [false, true] {
+        let name = if smol { "smol" } else { "tokio" };
+        let (pname, h) = if fairness {
+            (
+                format!("{name}/real-listener+transport/fairness/<={}clients", if th { 4 } else { 3 }),
+                RealSrv { smol, max_clients: if th { 4 } else { 3 }, bursts: vec![vec![K::P], vec![K::P, K::P, K::P, K::P], vec![K::B], vec![K::P, K::B, K::P]], endings: vec![Ending::Stays], fairness: true },
+            )
+        } else {
+            let mut bursts = vec![vec![K::P], vec![K::O], vec![K::P, K::P], vec![K::O, K::P], vec![K::P, K::O], vec![K::F, K::P], vec![K::B], vec![K::O, K::O]];
+            if th {
+                bursts.extend([vec![K::H], vec![K::P, K::H, K::O]]);
+            }
+            (format!("{name}/real-listener+transport/<=2clients/clients-that-hang-up"), RealSrv { smol, max_clients: 2, bursts, endings: vec![Ending::Stays, Ending::HalfCloses, Ending::Closes], fairness: false })
+        };
+        let st = explore(&pname, h.to_json(), &h, &cfg);
+        eprintln!("[real-server child] phase {pname}: {} executions, {} violation classes, {:.1}s", st.evals, st.violations.len(), st.wall);
+        phases.push(st);
     }
     println!("{}", xplore::report::child_json(&phases, "C19"));
     0
@@ -248,6 +278,14 @@ fn replay(path: &str) -> i32 {
                 }))
             }
         }
+    } else if prop == "C19" && v["harness"]["real_server"] == true {
+        match realsrv::RealSrv::from_json(&v["harness"]) {
+            Some(s) => xplore::replay(&s, budget, &choices),
+            None => {
+                eprintln!("MACHINERY: cannot rebuild the real-server harness");
+                return 2;
+            }
+        }
     } else if prop == "C19" && v["harness"]["state_service"] == true {
         match statesvc::StateScen::from_json(&v["harness"]) {
             Some(s) => xplore::replay(&s, budget, &choices),
@@ -298,6 +336,8 @@ fn main() {
         Some("c20") => run_c20(&tier),
         Some("c07-child") => c07_child(&tier),
         Some("c10-child") => c10_child(&tier),
+        Some("c08-child") => realsrv_child(&tier, false),
+        Some("c18-child") => realsrv_child(&tier, true),
         Some("--replay") => replay(args.get(1).map(|s| s.as_str()).unwrap_or("")),
         _ => {
             eprintln!("usage: sockets c19|c20 [--tier quick|thorough] | --replay <file>");
